@@ -7,13 +7,21 @@ import threading
 import time
 import traceback
 
-_harness_idents: set[int] = set()
+import weakref
+
+# Thread *objects* (idents are recycled by the OS: a new secsgem thread may reuse a dead harness thread's ident)
+_harness_threads: "weakref.WeakSet[threading.Thread]" = weakref.WeakSet()
 _lock = threading.Lock()
 
 
-def register_harness_thread(ident=None):
+def register_harness_thread(thread=None):
     with _lock:
-        _harness_idents.add(ident if ident is not None else threading.get_ident())
+        _harness_threads.add(thread if thread is not None else threading.current_thread())
+
+
+def _harness_idents():
+    with _lock:
+        return {t.ident for t in _harness_threads if t.is_alive()}
 
 
 def harness_thread(fn):
@@ -47,11 +55,12 @@ def snapshot(exclude_harness=True):
     frames = sys._current_frames()
     names = {t.ident: t.name for t in threading.enumerate()}
     me = threading.get_ident()
+    hidden = _harness_idents() if exclude_harness else set()
     out = {}
     for ident, frame in frames.items():
         if ident == me:
             continue
-        if exclude_harness and ident in _harness_idents:
+        if ident in hidden:
             continue
         if ident not in names:
             continue
@@ -117,8 +126,9 @@ def stacks(limit=12):
     frames = sys._current_frames()
     names = {t.ident: t.name for t in threading.enumerate()}
     out = {}
+    hidden = _harness_idents()
     for ident, frame in frames.items():
-        if ident in _harness_idents or ident == threading.get_ident():
+        if ident in hidden or ident == threading.get_ident():
             continue
         out[names.get(ident, str(ident))] = [f"{fs.filename.split('/')[-1]}:{fs.lineno} {fs.name}"
                                               for fs in traceback.extract_stack(frame)[-limit:]]
